@@ -21,7 +21,7 @@ CLAIMED = {
                  '(all constructors incl. ordered/hashed/indexed collections, deque, wrappers, skipped fields, enums), every value, both de_strict_order settings '
                  'and every trailing byte string, decode(encode v ++ rest) = (logical v, rest). Unbounded: induction over the type universe, loop invariants '
                  'for the element loop and the 1 MiB-chunk/doubling byte loop (all lengths), strict total order of the model of Ord. ' + CORR +
-                 ' The implementors of BorshSerialize/BorshDeserialize as the compiler lists them (rustdoc JSON, both feature sets) must all be constructors of the universe exercised by the catalogue. 426-type catalogue x generated values in 2 (quick) / 4 (thorough) feature configurations. Recursive derived items (no term of the type universe) are covered by '
+                 ' The implementors of BorshSerialize/BorshDeserialize as the compiler lists them (rustdoc JSON, both feature sets) must all be constructors of the universe exercised by the catalogue. '+str(len(__import__('catalogue').catalogue_types()))+'-type catalogue x generated values in 2 (quick) / 4 (thorough) feature configurations. Recursive derived items (no term of the type universe) are covered by '
                  'Properties/C01rec.v: an item is an environment of open terms, unfold e n replaces references below depth n by a type the codec refuses, and typing, bytes, logical value, '
                  'round trip and decoding are proved independent of the depth beyond the depth of the value (rec_fuel_monotone, C01_rec_round_trip, rec_decode_stable, rec_decode_final), so the '
                  'comparison of Tree/List/Json/Rec values (depth up to 3000) with finite unfoldings is conclusive.'),
